@@ -31,7 +31,7 @@ ASSUMPTIONS = ["files opened through the tracing filesystem have independent pos
                "handle would be corrupted by a seek/seek/read order",
                "yield points exist only where the real code performs I/O or takes its lock",
                "dask-backed loading is not installed and not exercised"]
-REQUIRED_OBS = ["schedules", "distinct_interleavings", "threads_compared", "line_level_schedules"]
+REQUIRED_OBS = ["schedules", "distinct_interleavings", "threads_compared", "line_level_schedules", "shared_handle_schedules"]
 CASE_TIMEOUT = 1500
 PREFIX_DEPTH = 3
 
@@ -69,6 +69,11 @@ def _plan(tier):
                 cases.append(("pb", sc, 3, 1, (2, k, 32, 4000)))
             for k in range(32):
                 cases.append(("pb", sc, 2, 2, (2, k, 32, None)))  # complete
+    # the filesystem hands out ONE shared file object per path (what fsspec's memory filesystem does): loads of the same
+    # variable share a position and rely on the lock; different images have different objects
+    for sc in ("same-variable", "pickled-copy", "different-images"):
+        cases.append(("shared", sc, 2, 1, [0]))
+        cases.append(("shared", sc, 2, 2, [0]))
     nrand = 48 if tier == "quick" else 600
     for k in range(nrand):
         cases.append(("random", SCENARIOS[k % 3], 2 + k % 3, 1 + k % 3, k))
@@ -92,6 +97,8 @@ def case_weight(i, tier, seed):
     kind, sc, nt, nchunks, p = _plan(tier)[i]
     if kind == "random":
         return 3
+    if kind == "shared":
+        return 60
     if kind == "free":
         return 40
     if kind == "pb":
@@ -168,6 +175,11 @@ def run_case(i, tier, seed):
     tree, copy, exp = _setup(seed, lines, rpc)
     sched.COARSE[0] = kind == "dfs-coarse"
     sched.FINE[0] = False
+    tracefs.SHARED_HANDLES[0] = kind == "shared"
+    if kind == "shared":
+        kind = "dfs"
+        obs["shared_handle_schedules"] = 0
+        p = []
     if kind == "pb":
         return _pb_case(i, tier, seed, scenario, nthreads, nchunks, p, tree, copy, exp, rpc, obs)
     if kind == "free":
@@ -185,18 +197,21 @@ def run_case(i, tier, seed):
             obs["skipped_prefixes"] += 1
             return {"sig": "prefix-not-in-tree", "evals": 0, "violations": [], "obs": obs, "nontrivial": False}
         obs["schedules"] += r["runs"]
+        if "shared_handle_schedules" in obs:
+            obs["shared_handle_schedules"] += r["runs"]
+            tracefs.SHARED_HANDLES[0] = False
         obs["distinct_interleavings"] += r["distinct"]
         obs["interleaved"] = obs.get("interleaved", 0) + r["interleaved"]
         obs["threads_compared"] += r["runs"] * nthreads
         obs["deadlocks"] += r["deadlocks"]
         obs["hung"] += r["hung"]
         for v in r["violations"]:
-            violations.append({"what": f"[{scenario}, {nthreads} threads x {nchunks} chunk(s)] {v['what']}",
+            violations.append({"what": f"[{scenario}, {nthreads} threads x {nchunks} chunk(s){', one shared file object per path' if 'shared_handle_schedules' in obs else ''}] {v['what']}",
                                "detail": {"schedule": v.get("schedule"), "trace": v.get("trace")}})
         inconclusive = None
         if r["hung"] and not r["deadlocks"]:
             inconclusive = "threads did not finish within the join timeout without a scheduler-visible deadlock"
-        return {"sig": f"{kind}|{scenario}|{nthreads}x{nchunks}", "evals": r["runs"], "violations": violations, "obs": obs,
+        return {"sig": f"{kind}{'-shared-handle' if 'shared_handle_schedules' in obs else ''}|{scenario}|{nthreads}x{nchunks}", "evals": r["runs"], "violations": violations, "obs": obs,
                 "inconclusive": inconclusive,
                 "sample": {"scenario": scenario, "threads": nthreads, "chunks_per_thread": nchunks, "prefix": p,
                            "schedules_in_this_subtree": r["runs"], "max_depth": r["max_depth"]} if r["runs"] > 1 else None}
